@@ -14,6 +14,24 @@ pub fn escw(s: &str) -> String { if s.is_empty() { "\\e".to_string() } else { es
 
 fn hexval(c: u8) -> u8 { match c { b'0'..=b'9' => c - 48, b'a'..=b'f' => c - 87, b'A'..=b'F' => c - 55, _ => 0 } }
 
+/// the bytes an escaped field stands for (no UTF-8 repair: hostile input is sent as it is)
+pub fn unesc_bytes(s: &str) -> Vec<u8> {
+    let b = s.as_bytes(); let mut o: Vec<u8> = Vec::new(); let mut i = 0;
+    while i < b.len() {
+        if b[i] == 92 && i + 1 < b.len() {
+            match b[i + 1] {
+                92 => { o.push(92); i += 2; continue; }
+                b'n' => { o.push(10); i += 2; continue; }
+                b'e' => { i += 2; continue; }
+                b'x' if i + 3 < b.len() => { o.push(hexval(b[i + 2]) * 16 + hexval(b[i + 3])); i += 4; continue; }
+                _ => {}
+            }
+        }
+        o.push(b[i]); i += 1;
+    }
+    o
+}
+
 pub fn unesc(s: &str) -> String {
     let b = s.as_bytes(); let mut o: Vec<u8> = Vec::new(); let mut i = 0;
     while i < b.len() {
